@@ -111,3 +111,8 @@ def rt1_move(self, pkt, raw, offset, fragments, base, **k):
     k['innermost-pkt-pos'] = k['innermost-pkt-pos'] - base      # positions relative to the start of the parse
     self.pack(pkt, fragments, **k)
     return end
+
+
+# ---------------------------------------------------------------- C07: what Bits._compile establishes is what unpack/pack need
+def bits_compile_establishes_wf(self, position, fields, bisturi_conf, j):
+    return self._compile(position, fields, bisturi_conf)
